@@ -118,7 +118,17 @@ pub fn bip32(k: u8) -> csl::Bip32PrivateKey {
 pub fn pubinfo(k: u8) -> (Vec<u8>, Vec<u8>) {
     PUB.with(|m| m.borrow_mut().entry(k).or_insert_with(|| { let pk = sk(k).to_public(); (pk.as_bytes(), pk.hash().to_bytes()) }).clone())
 }
-pub fn byron_addr(k: u8, magic: u32) -> csl::ByronAddress { csl::ByronAddress::icarus_from_key(&bip32(k).to_public(), magic) }
+/// Byron address of key k: Icarus style for even k, Daedalus style (with an HD derivation-path attribute, a longer address whose
+/// bootstrap witness is longer too) for odd k
+pub fn byron_addr(k: u8, magic: u32) -> csl::ByronAddress {
+    let a = csl::ByronAddress::icarus_from_key(&bip32(k).to_public(), magic);
+    if k % 2 == 0 { return a; }
+    use std::str::FromStr;
+    match csl::legacy_address::ExtendedAddr::from_str(&a.to_base58()) {
+        Ok(mut ea) => { ea.attributes.derivation_path = Some((0..28u8).map(|i| i.wrapping_mul(7).wrapping_add(k)).collect()); csl::ByronAddress::from_bytes(ea.to_address().as_ref().to_vec()).unwrap_or(a) }
+        Err(_) => a,
+    }
+}
 /// native script "signature of key k"
 pub fn pubkey_script(k: u8) -> csl::NativeScript { csl::NativeScript::new_script_pubkey(&csl::ScriptPubkey::new(&gkeyhash(k))) }
 
@@ -131,7 +141,8 @@ pub fn addr(v: &J) -> csl::Address {
         "base" => csl::BaseAddress::new(net, &gcred(k), &gcred(s)).to_address(),
         "byron" => byron_addr(k, v["magic"].as_u64().unwrap_or(764824073) as u32).to_address(),
         "reward" => csl::RewardAddress::new(net, &gcred(k)).to_address(),
-        "ptr" => csl::PointerAddress::new(net, &gcred(k), &csl::Pointer::new(2498243, 27, 3)).to_address(),
+        "ptr" => if k % 2 == 0 { csl::PointerAddress::new(net, &gcred(k), &csl::Pointer::new(2498243, 27, 3)).to_address() }
+                 else { csl::PointerAddress::new(net, &gcred(k), &csl::Pointer::new_pointer(&csl::BigNum::from(u64::MAX), &csl::BigNum::from(u64::MAX - 1), &csl::BigNum::from(1u64 << 62))).to_address() },
         "script_ent" => csl::EnterpriseAddress::new(net, &csl::Credential::from_scripthash(&pubkey_script(k).hash())).to_address(),
         "script_base" => csl::BaseAddress::new(net, &csl::Credential::from_scripthash(&pubkey_script(k).hash()), &gcred(s)).to_address(),
         _ => csl::EnterpriseAddress::new(net, &gcred(k)).to_address(),
